@@ -179,6 +179,8 @@ func (x *searcher) modelAt(pre *State, o buildOpts, res *buildResult, effects []
 type crashJob struct {
 	hist   []string
 	target string
+	always bool
+	focus  *focus // not a crash job: a failure-focused history search (failing bodies are C03's too)
 }
 
 var fDieAt = flag.Int("die-at", -1, "internal: kill this process (exit 137) just before persistent effect k of the build")
@@ -262,10 +264,18 @@ func crashMain(r *vlib.Run, x *searcher) {
 	var jobs []crashJob
 	for _, p := range pres {
 		for _, t := range []string{tTop, tMid, tGen} {
-			jobs = append(jobs, crashJob{p, t})
+			jobs = append(jobs, crashJob{hist: p, target: t})
 		}
 	}
-	recOps := []Op{byName["build:top"], byName["build:mid"], byName["build:gen"], byName["build:leaf"], byName["dry:top"], byName["edit:src/a.txt"], byName["delete:gen/g.txt"]}
+	// forced builds: a target without dependencies or sources has nothing else that could betray
+	// an unfinished execution
+	for _, p := range [][]string{{"build:top", "build:other"}, {"build:top"}} {
+		jobs = append(jobs, crashJob{hist: p, target: tOther, always: true}, crashJob{hist: p, target: tTop, always: true})
+	}
+	// failing bodies followed by repairs through partial builds
+	jobs = append(jobs, crashJob{focus: &focus{[]string{"fail:mid", "edit:dir/x.txt", "build:mid", "build:top"}, 7}},
+		crashJob{focus: &focus{[]string{"fail:gen", "edit:src/a.txt", "build:gen", "build:mid", "build:top"}, 6}})
+	recOps := []Op{byName["build:top"], byName["build:mid"], byName["build:gen"], byName["build:leaf"], byName["build:other"], byName["dry:top"], byName["edit:src/a.txt"], byName["delete:gen/g.txt"]}
 	recDepth := 2
 	if r.Thorough() {
 		recOps = append(recOps, byName["const:K"], byName["fail:mid"], byName["gc:full"])
@@ -273,6 +283,11 @@ func crashMain(r *vlib.Run, x *searcher) {
 	}
 	r.Distribute(len(jobs), func(ji int) {
 		j := jobs[ji]
+		if j.focus != nil {
+			x.explore(j.focus.depth, alphabetOf(j.focus.ops))
+			r.Add("failure_history_searches", 1)
+			return
+		}
 		// reach the pre-state
 		s := &State{V: initialVars(), Art: map[string]string{}, M: newModel()}
 		for _, name := range j.hist {
@@ -285,7 +300,7 @@ func crashMain(r *vlib.Run, x *searcher) {
 		if ji == 4 || (r.Thorough() && ji%3 == 1) {
 			r.Add("kill_conformance_points", int64(x.conformance(s, j.target)))
 		}
-		o := buildOpts{Target: j.target}
+		o := buildOpts{Target: j.target, Always: j.always}
 		seen := map[string]bool{}
 		// crash states along every explored linearisation of the effects
 		// quick: the default linearisation only; thorough: every schedule with <=1 preemption (capped)
@@ -324,7 +339,7 @@ func crashMain(r *vlib.Run, x *searcher) {
 				return
 			}
 			start := &State{V: s.V, Art: artOf(cs.tree), M: cs.model, Crashed: true,
-				Hist: append(append([]string{}, j.hist...), fmt.Sprintf("CRASH during build of %s %s", j.target, cs.desc))}
+				Hist: append(append([]string{}, j.hist...), fmt.Sprintf("CRASH during build of %s%s %s", j.target, map[bool]string{true: " (always)", false: ""}[j.always], cs.desc))}
 			// the state must load, with and without the index
 			for _, pi := range []bool{false, true} {
 				res := x.runBuildFiles(start.files(), start.V, buildOpts{Target: tTop, Dry: true, PreferIndex: pi})
